@@ -276,6 +276,54 @@ def run(ck):
                          {"mode": "asm", "arch": "z80", "source": txx, "expected": w, "harness_case": asm_case("z80", text=txx)})
             if len(ck.violations) >= 3:
                 break
+    # ---------------------------------------------------------------- many expressions in one run
+    # the value of an expression does not depend on how many expressions the same run has already parsed (parser
+    # state carried from one expression to the next): files of several hundred definition-free expressions, every
+    # operator and every unary prefix among them, each observed through its own @dw
+    singles = [(i, texts[i]) for i, (t, b, a, full) in enumerate(acases)
+               if not b and not a and a_spec[i].startswith("VAL") and texts[i].count("\n") == 1]
+    rng.shuffle(singles)
+    def w32(v):
+        v &= 0xFFFFFFFF
+        return v - (1 << 32) if v & 0x80000000 else v
+    UN = {"+": lambda v: v, "-": lambda v: w32(-v), "~": lambda v: w32(~v), "!": lambda v: int(v == 0),
+          "<": lambda v: v & 255, ">": lambda v: (v >> 8) & 255}
+    unary_lines, uvals = [], []
+    for k in range(1, 100):
+        for chain in ("+", "+ +", "-", "- -", "~", "!", "! !", "<", ">", "- +", "+ -", "~ ~", "+ ( + %d )" % k):
+            ops = [c for c in chain.split(" ") if c in UN]
+            v = k
+            for o in reversed(ops):
+                v = UN[o](v)
+            e = chain if chain.endswith(")") else "%s %d" % (chain, k)
+            unary_lines.append("@dw ( %s ) & $ffff , ( ( %s ) >> 16 ) & $ffff\n" % (e, e))
+            uvals.append(le32(v))
+    NU = 500
+    for lo in range(0, min(len(singles), 4000 if thorough else 1600), 400):
+        part = singles[lo:lo + 400]
+        if len(part) < 50:
+            break
+        # the same line first and last, a few hundred others (and a block of unary prefixes) in between
+        mid = part[1:]
+        body = [part[0][1]] + unary_lines[:NU] + [tx for _, tx in mid] + [part[0][1]]
+        def val_of(i):
+            return le32(int(a_spec[i].split("\t")[1]))
+        want_b = val_of(part[0][0]) + b"".join(uvals[:NU]) + b"".join(val_of(i) for i, _ in mid) + val_of(part[0][0])
+        src = "".join(body)
+        c = asm_case("z80", text=src)
+        r = AsmResult(run_cases(harness, [c], shards=1)[0])
+        ck.evaluations += 1
+        ck.count("asm:long-file:" + r.kind)
+        ck.nontriv("L" + src)
+        if not r.ok or r.bytes != want_b:
+            where = ""
+            if r.ok:
+                k = next((j for j in range(0, min(len(r.bytes), len(want_b)), 4) if r.bytes[j:j + 4] != want_b[j:j + 4]), 0) // 4
+                where = "; first wrong value is expression %d: %r" % (k, body[k].strip())
+            ck.violation("a file of %d expressions that each evaluate correctly alone gives %s%s" % (
+                len(body), ("a diagnostic: " + (r.msg or "")[:200]) if not r.ok else "different bytes", where),
+                {"mode": "asm", "arch": "z80", "source": src, "expected": "OK " + want_b.hex()[:64] + "...", "harness_case": c})
+            break
     # ---------------------------------------------------------------- chained conditionals
     # C's ?: is right-associative and its middle operand is a full expression: a ? b : c ? d : e and a ? b ? c : d : e
     # are legal C.  The assembler may refuse an unparenthesised chain with a diagnostic, but if it accepts one the value
